@@ -43,6 +43,17 @@ def run(tier):
             # a range that can select prereleases only, over lists with two prereleases and a release
             for vt, latest in [((0, 1, 1), 1), ((0, 1, 1), 2), ((1, 0, 1), 0)]:
                 add(3, vt, 9, latest, 0)
-    return run_property("C12", tier, [Group("resolve", jobs)], required_covers=["some version matched", "some version rejected"],
-                        assumptions=["version and requirement strings are template instances with symbolic digits/letters; list order: rotation+reversal"],
+    # the client: answers before and after a version is added again with other attributes
+    for sys in (NPM, MAVEN, PYPI):
+        rts = {NPM: [0, 1, 3, 4], MAVEN: [2], PYPI: [0, 5]}[sys] if tier == "quick" else range(NREQ[sys])
+        for k in (([2, 3] if sys == NPM else [2]) if tier == "quick" else [2, 3, 4]):
+            for rt in rts:
+                for latest in ([-1, 0, k - 1] if sys == NPM else [-1]):
+                    for move in (range(k) if tier != "quick" else [0, k - 1]):
+                        p = {"sys": sys, "k": k, "rt": rt, "latest": latest, "move": move}
+                        for i in range(k):
+                            p["vt%d" % i] = (i + rt) % 2 if tier == "quick" else (i * 3 + rt + move) % 2
+                        jobs.append(dict(base, harness="VerifC12ClientMatch", params=p))
+    return run_property("C12", tier, [Group("resolve", jobs)], required_covers=["some version matched", "some version rejected", "the client matched some version", "a version added again with other attributes"],
+                        assumptions=["version and requirement strings are template instances with symbolic digits/letters; list order: rotation+reversal", "LocalClient.MatchingVersions: parsable versions added in reverse order, asked twice, one version added again with other attributes (the latest tag moves, or a Blocked flag), asked again; each answer is compared with MatchRequirement over the list held at that moment, attributes included"],
                         bounds={"list_len": max(ks)})
